@@ -299,7 +299,7 @@ static void k_pkcs1(Tape &t)
 	case 0: {
 		size_t pos = t.u16() % (k.nlen - h.len);
 		// the few structural bytes are drawn as often as all padding bytes together
-		if (t.flag()) pos = t.pick<size_t>({ 0, 1, 2, k.nlen - h.len - 1, k.nlen - h.len - 2, 10 });
+		if (t.flag()) pos = t.pick<size_t>({ 0, 1, 2, k.nlen - h.len - 1, k.nlen - h.len - 2, 10, k.nlen - digest_info(h, hash, true).size() - 1 /* the 00 separator */, k.nlen - digest_info(h, hash, true).size() - 2 });
 		bad[pos] ^= (uint8_t)(1 + t.u8() % 255); what = fmt("byte %zu of the padding/DigestInfo altered", pos); break;
 	}
 	case 1: {   // 0xFF run of 7 (short padding): shift the T part left is impossible; build directly
@@ -551,7 +551,7 @@ static void k_keygen(Tape &t)
 	Impl &g = *gens[t.u8() % gens.size()];
 	bool thorough = tier_thorough();
 	unsigned ssel = t.u8();
-	unsigned size = ssel % 8 == 0 ? 512 : ssel % 8 == 1 ? 513 : ssel % 8 == 2 ? 520 + t.u8() % 16 : ssel % 8 == 3 ? 768 : ssel % 8 == 4 ? 527 : ssel % 8 == 5 ? (thorough ? 1024 : 600) : ssel % 8 == 6 ? 511 : 640 + t.u8();
+	unsigned size = ssel % 8 == 0 ? 512 : ssel % 8 == 1 ? 513 : ssel % 8 == 2 ? 520 + t.u8() % 16 : ssel % 8 == 3 ? 768 : ssel % 8 == 4 ? t.pick<unsigned>({ 527, 558, 557, 620, 619, 682, 681, 744, 540, 539, 570, 600 }) /* factor lengths at multiples of 31 / 15 bits: 62k, 62k-1, 30k */ : ssel % 8 == 5 ? (thorough ? 1024 : 600) : ssel % 8 == 6 ? 511 : 640 + t.u8();
 	if (thorough && ssel == 7) size = 2048;
 	uint32_t e = t.pick<uint32_t>({ 0, 3, 17, 65537, 0x80000001u, 5, 2, 1 });
 	Bytes seed = t.filled(20);
@@ -613,9 +613,9 @@ static void k_keygen(Tape &t)
 // (and every bit length inside the byte) are made here with GMP from the tape: signing must succeed exactly when the
 // block fits, give OpenSSL's bytes when it does, and no verifier may accept a block with fewer than eight FF bytes.
 static std::map<unsigned, std::unique_ptr<Key>> small_keys;
-static Key *small_key(unsigned bits, unsigned variant)
+static Key *small_key(unsigned bits, unsigned variant, unsigned skew = 0)
 {
-	unsigned id = bits * 8 + variant;
+	unsigned id = (bits * 8 + variant) * 64 + skew;
 	auto it = small_keys.find(id);
 	if (it != small_keys.end()) return it->second.get();
 	gmp_randstate_t rs;
@@ -623,7 +623,7 @@ static Key *small_key(unsigned bits, unsigned variant)
 	gmp_randseed_ui(rs, 0x5EED0000u + id);
 	std::unique_ptr<Key> k;
 	for (int tries = 0; tries < 2000 && !k; tries++) {
-		unsigned pb = (bits + 1) / 2, qb = bits - pb;
+		unsigned pb = (bits + 1) / 2 + skew, qb = bits - pb;   // skew: factors of unequal length
 		Z p, q;
 		mpz_urandomb(p.v, rs, pb); mpz_setbit(p.v, pb - 1); mpz_setbit(p.v, pb - 2); mpz_nextprime(p.v, p.v);
 		mpz_urandomb(q.v, rs, qb); mpz_setbit(q.v, qb - 1); if (tries % 2 == 0) mpz_setbit(q.v, qb - 2); mpz_nextprime(q.v, q.v);
@@ -698,9 +698,38 @@ static void k_pkcs1_boundary(Tape &t)
 	if (stats.want_sample()) stats.sample(fmt("pkcs1 boundary: %s, %u-bit key (%zu bytes, block needs %zu): sign %s by all implementations", h.name, k.bits, k.nlen, need, fits ? "== OpenSSL" : "refused"));
 }
 
+// K0b: raw private / public operations with factors of unequal length (p longer than q and the reverse, by 1..40
+// bits, so that the two need a different number of 15- / 31- / 62-bit words), against GMP
+static void k_raw_unbalanced(Tape &t)
+{
+	unsigned bits = 512 + 8 * (t.u8() % 56) + t.u8() % 8;          // 512 .. 967
+	unsigned skew = 1 + t.u8() % 40;
+	Key &k = *small_key(bits, t.u8() % 2, skew);
+	set_encoding(k, &t);
+	Bytes xb = t.filled(k.nlen);
+	Z x = zfrom(xb.data(), xb.size());
+	mpz_mod(x.v, x.v, k.n.v);
+	Bytes in = zbytes(x, k.nlen);
+	Z wp, wv;
+	mpz_powm(wp.v, x.v, k.e.v, k.n.v);
+	mpz_powm(wv.v, x.v, k.d.v, k.n.v);
+	Bytes want_pub = zbytes(wp, k.nlen), want_priv = zbytes(wv, k.nlen);
+	size_t pl = (mpz_sizeinbase(k.p.v, 2)), ql = (mpz_sizeinbase(k.q.v, 2));
+	for (auto &im : impls) {
+		Bytes a = in;
+		VF_CHECK(im.pub(a.data(), a.size(), &k.pk) == 1 && a == want_pub, "rsa_%s public (%u bits, factors of %zu and %zu bits) differs from GMP", im.name, k.bits, pl, ql);
+		Bytes b = in;
+		VF_CHECK(im.priv(b.data(), &k.sk) == 1, "rsa_%s private refused a valid key with factors of %zu and %zu bits", im.name, pl, ql);
+		VF_CHECK(b == want_priv, "rsa_%s private (%u bits, p of %zu bits %s q of %zu bits): %s.., GMP says %s..", im.name, k.bits, pl, pl < ql ? "<" : ">", ql, hex(b.data(), b.size(), 16).c_str(), hex(want_priv.data(), want_priv.size(), 16).c_str());
+	}
+	stats.cls(pl < ql ? "raw:unbalanced-p<q" : "raw:unbalanced-p>q");
+	stats.eval(fmt("rawu/%u/%zu/%zu", k.bits, pl, ql));
+}
+
 void target_run(Tape &t)
 {
 	unsigned sel0 = t.u8();
+	if (sel0 >= 248) { k_raw_unbalanced(t); return; }
 	if (sel0 >= 240) { k_pkcs1_boundary(t); return; }
 	switch (sel0 % 16) {
 	case 0: case 1: case 2: k_raw(t); break;
